@@ -355,7 +355,9 @@ def c13_persist(stream, res, impl):
             if after_reopen and last_dump is not None and out != last_dump:
                 return "state read back after reopen differs from the state acknowledged before it"
             last_dump, after_reopen = out, False
-        elif t[1] == "reopen":
+        elif t[1] in ("reopen", "torn"):
+            if t[1] == "torn" and out != "ok":
+                return "after a torn (never acknowledged) append to the value log the store does not open any more: %s" % out[:200]
             after_reopen = last_dump is not None
         elif t[1] in ("op", "crash", "prepare", "open"):
             if t[1] != "op" or t[2] not in ("getnode", "peers", "getnb", "getab", "nodes", "isan", "stats", "active"):
